@@ -69,3 +69,14 @@ pub fn lock_twice_sequentially(m: &std::sync::Mutex<Vec<u8>>) -> usize {
 	drop(g);
 	m.lock().expect("not poisoned").len()
 }
+
+/// a wire string deserialised as a borrowed &str (C15.R7): fails on escaped spellings of the same string
+pub struct Marker;
+impl<'de> serde::Deserialize<'de> for Marker {
+	fn deserialize<D: serde::Deserializer<'de>>(d: D) -> Result<Self, D::Error> {
+		match <&str as serde::Deserialize>::deserialize(d)? {
+			"2.0" => Ok(Marker),
+			_ => Err(serde::de::Error::custom("bad marker")),
+		}
+	}
+}
